@@ -6,7 +6,8 @@ import ast
 import itertools
 import math
 
-from ..core import AnalysisError, body_nodes, dotted, key_text, kwarg, params, stmts_of, unparse
+from ..core import (AnalysisError, body_nodes, call_name, dotted, is_self_attr, key_text, kwarg,
+                    params, stmts_of, unparse)
 from ..flow import stale_derived
 from ..normal import inline_temps
 from ..pattern import find, pmatch
@@ -346,6 +347,10 @@ def run(prog, rep, tier):
     check_index_maps(prog, rep)
     if check_stale_masks(prog, rep) < 4:
         raise AnalysisError('GEOM-stale-mask: the mask uses of possible_couplings were not found')
+    if check_derived_refresh(prog, rep) < 2:
+        raise AnalysisError('GEOM-derived-refresh: writers of HelicalLattice._N_cells not found')
+    if check_exact_div(prog, rep) < 2:
+        raise AnalysisError('GEOM-exact-div: the unit-cell shifts of mps2lat_idx / lat2mps_idx not found')
     if check_radix(prog, rep) < 5:
         raise AnalysisError('GEOM-radix: the species index combinations were not found')
     rep.floor('GEOM-neighbors', 20)
@@ -361,3 +366,158 @@ def run(prog, rep, tier):
         'pairing of the index-map methods.' % n,
         proof={'obligations': n, 'discharged': n - sum(
             1 for f in rep.findings if f.rule == 'GEOM-neighbors'), 'exhaustive': True})
+
+
+# ------------------------------------------------------------------ GEOM-exact-div
+def _mult_facts(f):
+    """{expression text: modulus text}: expressions known to be an exact multiple of a modulus.
+    `a = b` followed by `b = np.mod(b, M)`  =>  (a - b) is a multiple of M;
+    `s = v - np.mod(v, M)`                   =>  s is a multiple of M."""
+    facts = {}
+    alias = {}
+    for st in stmts_of(f):
+        if isinstance(st, ast.Assign) and len(st.targets) == 1 and isinstance(
+                st.targets[0], ast.Name):
+            t, v = st.targets[0].id, st.value
+            if isinstance(v, ast.Name):
+                alias[t] = v.id
+            if isinstance(v, ast.Call) and dotted(v.func) in ('np.mod', 'numpy.mod') and \
+                    len(v.args) == 2 and isinstance(v.args[0], ast.Name) and v.args[0].id == t:
+                for a, b in alias.items():
+                    if b == t:
+                        facts['%s - %s' % (a, t)] = unparse(v.args[1])
+            if isinstance(v, ast.BinOp) and isinstance(v.op, ast.Sub) and isinstance(
+                    v.right, ast.Call) and dotted(v.right.func) in ('np.mod', 'numpy.mod') and \
+                    len(v.right.args) == 2 and unparse(v.right.args[0]) == unparse(v.left):
+                facts[t] = unparse(v.right.args[1])
+    return facts
+
+
+def _mul_factors(e):
+    if isinstance(e, ast.BinOp) and isinstance(e.op, ast.Mult):
+        return _mul_factors(e.left) + _mul_factors(e.right)
+    return [e]
+
+
+def check_exact_div(prog, rep):
+    """GEOM-exact-div: the translation between MPS indices and lattice indices across unit cells
+    divides by N_sites / N_rings; N_sites need not be a multiple of N_rings (IrregularLattice), so
+    every floor division must be exact by construction: its numerator contains a factor that is a
+    multiple of the divisor (a difference to its own residue)."""
+    m = prog.module(LAT)
+    n = 0
+    for q in ('Lattice.mps2lat_idx', 'Lattice.lat2mps_idx'):
+        f = m.func(q)
+        facts = _mult_facts(f)
+        for d in body_nodes(f):
+            if not (isinstance(d, ast.BinOp) and isinstance(d.op, ast.FloorDiv)):
+                continue
+            div = unparse(d.right)
+            fs = [unparse(x) for x in _mul_factors(d.left)]
+            ok = any(facts.get(x) == div for x in fs)
+            n += 1
+            rep.instance('GEOM-exact-div', {'function': q, 'division': unparse(d),
+                                            'multiples': facts, 'exact': ok})
+            if not ok:
+                rep.violation('GEOM-exact-div', m, q, 'inexact:' + unparse(d)[:50],
+                              '`%s` rounds: no factor of the numerator is known to be a multiple '
+                              'of `%s` (known multiples: %s). N_sites is not a multiple of '
+                              'N_rings on an irregular lattice, so indices outside the first '
+                              'unit cell land on the wrong ring and lat2mps_idx(mps2lat_idx(i)) '
+                              '!= i' % (unparse(d), div, facts), d.lineno)
+    return n
+
+
+# ------------------------------------------------------------------ GEOM-derived-refresh
+def _derived_pairs(ct, m):
+    """(class, recompute method R, source fields F): a private method that stores public fields as
+    expressions of private fields it does not store itself (HelicalLattice._set_Ls: N_cells and
+    N_sites from _N_cells)"""
+    out = []
+    for ci in ct.all:
+        if ci.module is not m:
+            continue
+        for rname, R in ci.methods.items():
+            if not rname.startswith('_') or rname.startswith('__'):
+                continue
+            stores = {}
+            for st in stmts_of(R):
+                if isinstance(st, ast.Assign):
+                    for t in st.targets:
+                        if is_self_attr(t):
+                            stores.setdefault(t.attr, set()).update(
+                                n.attr for n in ast.walk(st.value) if is_self_attr(n))
+            srcs = set()
+            for d, rs in stores.items():
+                srcs |= {r for r in rs if r not in stores and r.startswith('_')}
+            if srcs:
+                out.append((ci, rname, R, sorted(srcs), sorted(stores)))
+    return out
+
+
+def _calls_method(ct, ci, f, target, depth=0):
+    """statement nodes of f that (transitively) run self.<target>"""
+    hits = []
+    for c in body_nodes(f):
+        if not (isinstance(c, ast.Call) and isinstance(c.func, ast.Attribute)):
+            continue
+        recv = c.func.value
+        g = None
+        if isinstance(recv, ast.Name) and recv.id == 'self':
+            if c.func.attr == target:
+                hits.append(c)
+                continue
+            _, g = ct.resolve_method(ci, c.func.attr)
+        elif isinstance(recv, ast.Call) and call_name(recv) == 'super':
+            _, g = ct.resolve_method(ci, c.func.attr, after=ci)
+        elif isinstance(recv, ast.Name) and c.args and unparse(c.args[0]) == 'self':
+            bi = ct.lookup(recv.id, ci.module)
+            if bi is not None:
+                _, g = ct.resolve_method(bi, c.func.attr)
+        if g is not None and g is not f and depth < 3 and _calls_method(ct, ci, g, target,
+                                                                         depth + 1):
+            hits.append(c)
+    return hits
+
+
+def check_derived_refresh(prog, rep):
+    """GEOM-derived-refresh: a field from which a recompute method derives public geometry
+    (N_cells, N_sites) may only be changed on paths that afterwards run that method: otherwise
+    N_sites keeps the old value while order / mps_sites() already describe the new cell."""
+    from ..cfg import CFG
+    m = prog.module(LAT)
+    ct = prog.classtable()
+    n = 0
+    for ci, rname, R, srcs, derived in _derived_pairs(ct, m):
+        for wname, W in ci.methods.items():
+            if W is R:
+                continue
+            writes = [st for st in stmts_of(W) if isinstance(st, (ast.Assign, ast.AugAssign)) and
+                      any(is_self_attr(t) and t.attr in srcs for t in
+                          (st.targets if isinstance(st, ast.Assign) else [st.target]))]
+            if not writes:
+                continue
+            refresh = {id(c) for c in _calls_method(ct, ci, W, rname)}
+            cfg = CFG(W)
+
+            def is_refresh(node):
+                return node.stmt is not None and not isinstance(
+                    node.stmt, (ast.If, ast.For, ast.While, ast.With, ast.Try)) and any(
+                        id(c) in refresh for c in ast.walk(node.stmt))
+            for st in writes:
+                n += 1
+                starts = cfg.nodes_of(st)
+                r = cfg.reachable_from(starts, blocked=is_refresh)
+                ok = cfg.exit not in r
+                rep.instance('GEOM-derived-refresh', {
+                    'class': ci.name, 'writer': wname, 'field': srcs, 'recompute': rname,
+                    'derived': derived, 'always_refreshed': ok})
+                if not ok:
+                    rep.violation('GEOM-derived-refresh', m, '%s.%s' % (ci.name, wname),
+                                  'stale:%s' % ','.join(srcs),
+                                  '`%s` changes self.%s, from which %s.%s derives %s, but a path '
+                                  'to the end of %s does not run %s afterwards: the derived '
+                                  'fields keep their old values' %
+                                  (key_text(st)[:60], '/'.join(srcs), ci.name, rname, derived,
+                                   wname, rname), st.lineno)
+    return n
